@@ -598,16 +598,22 @@ func c05AbortMapping(c *core.Ctx) {
 				if k.Name == "Message" {
 					// message local: defs = codeMessage.Message and m.(string) from errorContext["message"]
 					if v, isV := core.ObjOf(info, kv.Value).(*types.Var); isV {
-						defs := u.DefsOf(v)
+						// the selection may have moved into a novel private helper(codeMessage, errorContext) returning the message
+						mu, p1, p2 := u, paramName(u, 1), paramName(u, 2)
+						if hu, hv := followNovelResult(c, u, v); hu != nil {
+							c.Touch(hu)
+							mu, v, p1, p2 = hu, hv, paramName(hu, 0), paramName(hu, 1)
+						}
+						defs := mu.DefsOf(v)
 						d1, d2 := false, false
 						for _, d := range defs {
-							if se, isS := ast.Unparen(d).(*ast.SelectorExpr); isS && se.Sel.Name == "Message" && isLocal(info, se.X, paramName(u, 1)) {
+							if se, isS := ast.Unparen(d).(*ast.SelectorExpr); isS && se.Sel.Name == "Message" && isLocal(info, se.X, p1) {
 								d1 = true
 							}
 							if ta, isT := ast.Unparen(d).(*ast.TypeAssertExpr); isT {
-								if dd, k := u.SingleDef(ta.X); k {
+								if dd, k := mu.SingleDef(ta.X); k {
 									if te, isTE := dd.(*core.TupleElem); isTE {
-										if ix, isIx := ast.Unparen(te.X).(*ast.IndexExpr); isIx && isLocal(info, ix.X, paramName(u, 2)) {
+										if ix, isIx := ast.Unparen(te.X).(*ast.IndexExpr); isIx && isLocal(info, ix.X, p2) {
 											if kk, _ := core.ConstString(info, ix.Index); kk == "message" {
 												d2 = true
 											}
